@@ -362,6 +362,7 @@ static std::string schedRun(const std::vector<std::string>& t)
   int iF = ds::object_index(sh->q->_condNotFull.native_handle());
   auto cvn = [&](int o) { return o == iE ? std::string("E") : o == iF ? std::string("F") : "?" + std::to_string(o); };
   std::string evs;
+  std::string stuck;   // forced time-outs of sleepers whose wait predicate already held ("blocked while the condition holds")
   const auto& tr = ds::trace();
   std::size_t si = 0;
   for (std::size_t i = 0; i < tr.size(); ++i)
@@ -369,6 +370,16 @@ static std::string schedRun(const std::vector<std::string>& t)
     const ds::Event& e = tr[i];
     if (e.tid == 0 || e.kind == ds::EXIT) continue;
     while (si < sh->samples.size() && sh->samples[si].traceLen <= i) ++si;
+    if (e.kind == ds::TIMEOUT && e.detail == 1 && si < sh->samples.size() && (e.obj == iE || e.obj == iF))
+    {
+      const Sample& x = sh->samples[si];
+      bool pred = x.closed || (e.obj == iE ? x.n > 0 : x.n < static_cast<std::size_t>(mx));
+      if (pred)
+      {
+        if (!stuck.empty()) stuck += ',';
+        stuck += "t" + std::to_string(e.tid) + ":" + cvn(e.obj) + ":n=" + std::to_string(x.n) + ":c=" + (x.closed ? "1" : "0") + ":step=" + std::to_string(i);
+      }
+    }
     std::string d;
     switch (e.kind)
     {
@@ -402,13 +413,13 @@ static std::string schedRun(const std::vector<std::string>& t)
     if (k == 0 || !sh->finished[k]) r += "*";
     rets += r;
   }
-  std::string out = status + " | " + evs + " | " + rets + " | " + ds::choicesString();
+  std::string out = status + " | " + evs + " | " + rets + " | " + ds::choicesString() + " | " + (stuck.empty() ? "-" : stuck);
   if (ok) { delete sh->q; delete sh; }   // otherwise: abandoned threads still reference them
   return out;
 }
 
 // ---- exhaustive exploration of every schedule of a small program (DFS over DetSched's recorded alternatives)
-struct OneRun { std::string status; std::size_t maxn = 0, finaln = 0; std::vector<std::vector<std::string>> rets; std::vector<char> finished;
+struct OneRun { std::string status; std::string stuck; std::size_t maxn = 0, finaln = 0; std::vector<std::vector<std::string>> rets; std::vector<char> finished;
                 std::vector<std::uint32_t> choices; std::vector<std::vector<std::uint32_t>> alts; };
 static OneRun runOnce(std::size_t cap, const std::vector<std::vector<Call>>& progs, const std::vector<std::uint32_t>& prefix)
 {
@@ -439,6 +450,22 @@ static OneRun runOnce(std::size_t cap, const std::vector<std::vector<Call>>& pro
   for (const Sample& x : sh->samples) if (x.n > r.maxn) r.maxn = x.n;
   r.finaln = sh->q->_queue.size();
   if (r.finaln > r.maxn) r.maxn = r.finaln;
+  {
+    int iE = ds::object_index(sh->q->_condNotEmpty.native_handle());
+    int iF = ds::object_index(sh->q->_condNotFull.native_handle());
+    const auto& tr = ds::trace();
+    std::size_t si = 0;
+    for (std::size_t i = 0; i < tr.size() && r.stuck.empty(); ++i)
+    {
+      const ds::Event& e = tr[i];
+      if (e.kind != ds::TIMEOUT || e.detail != 1 || e.tid == 0 || (e.obj != iE && e.obj != iF)) continue;
+      while (si < sh->samples.size() && sh->samples[si].traceLen <= i) ++si;
+      if (si >= sh->samples.size()) break;
+      const Sample& x = sh->samples[si];
+      bool pred = x.closed || (e.obj == iE ? x.n > 0 : x.n < cap);
+      if (pred) r.stuck = "thread " + std::to_string(e.tid) + " on " + (e.obj == iE ? "notEmpty" : "notFull") + " n=" + std::to_string(x.n);
+    }
+  }
   r.rets = sh->rets;
   r.finished = sh->finished;
   r.choices = ds::choices();
@@ -450,6 +477,7 @@ static OneRun runOnce(std::size_t cap, const std::vector<std::vector<Call>>& pro
 static std::string judge(std::size_t cap, const std::vector<std::vector<Call>>& progs, const OneRun& r)
 {
   if (r.status != "ok") return r.status;
+  if (!r.stuck.empty()) return "blocked while its condition holds (forced time-out with a true predicate): " + r.stuck;
   if (r.maxn > cap) return "capacity " + std::to_string(r.maxn) + ">" + std::to_string(cap);
   std::vector<std::pair<u64, std::size_t>> put;   // value, producer (in per-producer program order)
   std::vector<std::pair<u64, std::size_t>> taken; // value, consumer
